@@ -2,6 +2,8 @@
 import re
 from fractions import Fraction
 
+import itertools
+
 import numpy as np
 
 from AegeanTools import angle_tools as at
@@ -66,6 +68,8 @@ def cases(tier, seed):
         yield "triangle", dict(i=i)
     for i in range(n):
         yield "translate", dict(i=i)
+    for d in (0, 1, 9, 23, 45, 89):
+        yield "spellings", dict(d=d)
     for fn in ("gcd", "bear", "translate"):
         for pattern in range(1, 16):
             yield "arrays", dict(fn=fn, pattern=pattern, k0=5)
@@ -316,6 +320,32 @@ def exact_dms(fr):
     return "%s%02d:%02d:%02d.%02d" % (sign, d, mi, cs // 100, cs % 100), Fraction(n, 360000) * (-1 if sign == "-" else 1)
 
 
+def ev_spellings(case, ctx):
+    """the documented input format is `[+- ]dd:mm[:ss.s]`, colons or white space: every spelling of every whole-arcminute
+    angle of one degree (sign, separators, optional seconds field, explicit plus) parses to the same exact value"""
+    d = case["d"]
+    for mi in range(60):
+        for sgn in (1, -1):
+            if sgn == -1 and d == 0 and mi == 0:
+                continue
+            exact = sgn * (Fraction(d) + Fraction(mi, 60))
+            signs = ["", "+"] if sgn == 1 else ["-"]
+            for sg, sep, secs in itertools.product(signs, [":", " ", "  ", "\t"], ["", "00", "00.0", "0.00"]):
+                txt = "%s%02d%s%02d" % (sg, d, sep, mi) + ((sep + secs) if secs else "")
+                ctx.count("spelling")
+                ctx.nontrivial("sp" + txt)
+                for fn, scale, nm in ((at.dec2dec, 1, "dec2dec"), (at.ra2dec, 15, "ra2dec")):
+                    if nm == "ra2dec" and d >= 24:
+                        continue
+                    try:
+                        got = fn(txt)
+                    except Exception as e:
+                        ctx.violation("%s(%r) raised %r" % (nm, txt, e), "spelling_raise|%s,%s" % (nm, txt))
+                        continue
+                    if not abs(got - float(exact * scale)) <= 1e-11 * scale:
+                        ctx.violation("%s(%r) = %r, exact value %r" % (nm, txt, got, float(exact * scale)), "spelling|%s,%s" % (nm, txt))
+
+
 def ev_dms_boundary(case, ctx):
     d = case["d"]
     for mi in range(60):
@@ -387,7 +417,7 @@ def ev_nonfinite(case, ctx):
                 ctx.violation("%s(%r) = %r" % (f.__name__, x, f(x)), "nonfinite|%s(%r)" % (f.__name__, x))
 
 
-CLAUSES = dict(arrays=ev_arrays, gcd_pairs=ev_gcd_pairs, bear_pairs=ev_bear_pairs, triangle=ev_triangle, translate=ev_translate,
+CLAUSES = dict(spellings=ev_spellings, arrays=ev_arrays, gcd_pairs=ev_gcd_pairs, bear_pairs=ev_bear_pairs, triangle=ev_triangle, translate=ev_translate,
                dms_boundary=ev_dms_boundary, hms_boundary=ev_hms_boundary, sexa_lattice=ev_sexa_lattice,
                nonfinite=ev_nonfinite)
 
